@@ -1,18 +1,18 @@
-\* scenario Map<K,MVReg>: same-context key removes issued in the opposite order (absent key first), one more edit, 3 replicas, merges
+\* scenario Map<K,MVReg>: two actors update one key and each removes it with its own context, updates cross-delivered; then deliveries, merges among 3 replicas (also what follows a no-op step: VIEW noopView)
 CONSTANTS
   DescName = "mv"
   NReps = 3
-  NKeys = 2
+  NKeys = 1
   NMembers = 1
   NVals = 1
-  MaxOps = 5
+  MaxOps = 4
   Regime = "fifo"
   UseMerge = TRUE
   UseSnap = FALSE
   UseDup = FALSE
-  RmVia = TRUE
+  RmVia = FALSE
   DumpReset = FALSE
-  ScriptName = "same_ctx_key_removes_rev"
+  ScriptName = "crossed_removes"
   Reps <- MCReps
   Actors <- MCActors
   Keys <- MCKeys
